@@ -13,6 +13,7 @@ pub mod c12;
 pub mod c13;
 pub mod c14;
 pub mod c16;
+pub mod c18;
 pub mod c20;
 
 pub fn run(ctx: &mut Ctx) -> bool {
@@ -61,6 +62,10 @@ pub fn run(ctx: &mut Ctx) -> bool {
             ctx.rule = c16::RULE.into();
             c16::run(ctx);
             c02::run_c16b(ctx)
+        }
+        "C18" => {
+            ctx.rule = c18::RULE.into();
+            c18::run(ctx)
         }
         "C20" => {
             ctx.rule = c20::RULE.into();
